@@ -88,9 +88,9 @@ checks = {
  "C12": ("other",
    "Symbolic execution of extensions.go over message x descriptor candidates with the runtimes' extension APIs as logged stubs: matching pairs reach exactly the owning "
    "runtime, mismatching pairs yield false/error/documented panic with no runtime call; every path is replayed natively where the coherence laws are asserted on real "
-   "v2 and gogo messages with real extensions, and csproto's answers are compared with the owning runtime's (declared defaults, foreign extendees).", "§5 C12"),
+   "v2 and gogo messages with real extensions, and csproto's answers are compared with the owning runtime's (declared defaults, foreign extendees, Range: visited set and early stop over all subsets of four extensions).", "§5 C12"),
  "C18": ("other",
-   "Symbolic execution of json.go with the five options symbolic: the codec invoked receives exactly the options given (receiver structs of the stubbed protojson/jsonpb "
+   "Symbolic execution of json.go with the five options symbolic (optionally each preceded by its opposite value: the later occurrence counts): the codec invoked receives exactly the options given (receiver structs of the stubbed protojson/jsonpb "
    "calls are read back), nil handling, json.Marshaler/Unmarshaler precedence, error propagation; every path replayed natively where the real codecs must produce valid "
    "JSON that round-trips and shows each option's effect.", "§5 C18"),
  "C20": ("model_checking",
